@@ -1,8 +1,10 @@
-/- Helper lemmas for the exact conversions into mpq: mpq_set_f (set_f.c) and mpq_set_d (set_d.c with
-   __gmp_extract_double). -/
+/- Helper lemmas for the conversions: mpq_set_f (set_f.c), mpq_set_d (set_d.c with
+   __gmp_extract_double) — exact — and mpq_get_d (get_d.c + mpn_get_d) — truncation toward zero. -/
 import MpirProofs.Lemmas.Mpq
 import Mathlib.Algebra.Order.Field.Power
 import Mathlib.Data.Nat.Bitwise
+import Mathlib.Data.Rat.Floor
+import Mathlib.Algebra.Order.Floor.Semifield
 namespace Mpir.Mpq
 
 /-! ### mpq_set_f -/
@@ -377,5 +379,162 @@ theorem setDVal_spec (s : Bool) (e f : Nat) (hf : f < 2 ^ 52) :
   · simp only [if_true]
     refine ⟨by simp only [Q.toRat] at hv ⊢; rw [← hv]; push_cast; ring, ?_⟩
     rw [canonical_iff] at hc ⊢; exact ⟨hc.1, hc.2.neg_left⟩
+
+/-! ### mpq_get_d -/
+
+/-- the quotient and exponent that mpq_get_d hands to mpn_get_d -/
+def getDQuot (n d : ℕ) : ℕ × ℤ :=
+  let nsize : Int := (limbs n : Nat)
+  let dsize : Int := (limbs d : Nat)
+  let zeros := 3 - (nsize - dsize + 1)
+  let chop := max (-zeros) 0
+  (n / B ^ chop.toNat * B ^ (zeros + chop).toNat / d, -zeros * 64)
+
+theorem get_d_eq (src : Nat) (h : Heap) :
+    get_d src h = if (h src).num = 0 then 0 else
+      getDBits ((h src).num < 0) (getDQuot (h src).num.natAbs (h src).den.natAbs).1
+        (getDQuot (h src).num.natAbs (h src).den.natAbs).2 := by
+  unfold get_d getDQuot
+  rfl
+
+theorem getDQuot_spec {n d : ℕ} (hn : n ≠ 0) (hd : d ≠ 0) :
+    (getDQuot n d).1 = ⌊(n : ℚ) / (d : ℚ) * (2 : ℚ) ^ (-(getDQuot n d).2)⌋₊ ∧ B ≤ (getDQuot n d).1 := by
+  unfold getDQuot
+  simp only []
+  have ln := limbs_pos hn
+  have ld := limbs_pos hd
+  have hnl := limbs_lb hn
+  have hdu := limbs_ub d
+  have hdq : (d : ℚ) ≠ 0 := by exact_mod_cast hd
+  rcases le_or_gt (0 : ℤ) (3 - (((limbs n : ℕ) : ℤ) - ((limbs d : ℕ) : ℤ) + 1)) with hz | hz
+  · -- pad: zeros >= 0, chop = 0
+    have hc : max (-(3 - (((limbs n : ℕ) : ℤ) - ((limbs d : ℕ) : ℤ) + 1))) 0 = 0 := by omega
+    rw [hc]
+    obtain ⟨z, hzz⟩ : ∃ z : ℕ, (3 - (((limbs n : ℕ) : ℤ) - ((limbs d : ℕ) : ℤ) + 1)) = (z : ℤ) := ⟨_, (Int.toNat_of_nonneg hz).symm⟩
+    rw [hzz]
+    simp only [Int.toNat_zero, pow_zero, Nat.div_one, add_zero, Int.toNat_natCast]
+    constructor
+    · rw [← Nat.floor_div_eq_div (K := ℚ)]
+      congr 1
+      rw [neg_mul, neg_neg, show ((z : ℤ) * 64) = ((64 * z : ℕ) : ℤ) by push_cast; ring, zpow_natCast]
+      push_cast
+      rw [B_cast_rat, ← zpow_natCast, ← zpow_natCast, ← zpow_mul]
+      field_simp
+      norm_cast
+    · rw [Nat.le_div_iff_mul_le (Nat.pos_of_ne_zero hd)]
+      have e : limbs n - 1 + z = limbs d + 1 := by omega
+      calc B * d ≤ B * B ^ limbs d := Nat.mul_le_mul_left _ hdu.le
+        _ = B ^ (limbs n - 1) * B ^ z := by rw [← pow_succ', ← pow_add]; congr 1; omega
+        _ ≤ n * B ^ z := Nat.mul_le_mul_right _ hnl
+  · -- chop: zeros < 0
+    obtain ⟨c, hcc⟩ : ∃ c : ℕ, -(3 - (((limbs n : ℕ) : ℤ) - ((limbs d : ℕ) : ℤ) + 1)) = (c : ℤ) := ⟨_, (Int.toNat_of_nonneg (by omega)).symm⟩
+    have hz2 : (3 - (((limbs n : ℕ) : ℤ) - ((limbs d : ℕ) : ℤ) + 1)) = -(c : ℤ) := by omega
+    have hc : max (-(3 - (((limbs n : ℕ) : ℤ) - ((limbs d : ℕ) : ℤ) + 1))) 0 = (c : ℤ) := by omega
+    rw [hc, hz2]
+    simp only [neg_add_cancel, Int.toNat_zero, pow_zero, mul_one, Int.toNat_natCast, neg_neg]
+    constructor
+    · rw [Nat.div_div_eq_div_mul, ← Nat.floor_div_eq_div (K := ℚ)]
+      congr 1
+      rw [show ((c : ℤ) * 64) = ((64 * c : ℕ) : ℤ) by push_cast; ring, zpow_neg, zpow_natCast]
+      push_cast
+      rw [B_cast_rat, ← zpow_natCast, ← zpow_natCast, ← zpow_mul]
+      field_simp
+      norm_cast
+    · rw [Nat.le_div_iff_mul_le (Nat.pos_of_ne_zero hd), Nat.le_div_iff_mul_le (Nat.pow_pos B_pos)]
+      calc B * d * B ^ c ≤ B * B ^ limbs d * B ^ c :=
+            Nat.mul_le_mul_right _ (Nat.mul_le_mul_left _ hdu.le)
+        _ = B ^ (limbs n - 1) := by rw [← pow_succ', ← pow_add]; congr 1; omega
+        _ ≤ n := hnl
+
+
+/-- bit pattern of the double obtained by truncating the positive rational `x` toward zero, where `E` is
+    the exponent of its leading bit (`2^E ≤ x < 2^(E+1)`) and `sgn` is the sign bit (0 or 2^63):
+    infinity on overflow, exponent field `E+1023` and the truncated 53-bit mantissa without its hidden
+    bit for normal numbers, the truncated multiple of 2^-1074 for denormals, +0.0 below that. -/
+def truncDbl (sgn : ℕ) (x : ℚ) (E : ℤ) : ℕ :=
+  if E ≥ 1024 then sgn + 2047 * 2 ^ 52
+  else if E ≤ -1075 then 0
+  else if E ≤ -1023 then sgn + ⌊x * (2 : ℚ) ^ (1074 : ℤ)⌋₊
+  else sgn + (E + 1023).toNat * 2 ^ 52 + (⌊x * (2 : ℚ) ^ (52 - E)⌋₊ - 2 ^ 52)
+
+theorem one_lt_two_q : (1 : ℚ) < 2 := by norm_num
+
+theorem getDBits_trunc (neg : Bool) (q : ℕ) (exp : ℤ) (x : ℚ) (E : ℤ) (hx : 0 < x)
+    (hq : q = ⌊x * (2 : ℚ) ^ (-exp)⌋₊) (hB : B ≤ q) (hE1 : (2 : ℚ) ^ E ≤ x) (hE2 : x < (2 : ℚ) ^ (E + 1)) :
+    getDBits neg q exp = truncDbl (if neg then 2 ^ 63 else 0) x E := by
+  have hq0 : q ≠ 0 := by have := B_pos; omega
+  have hlb := bits_lb hq0
+  have hub := bits_ub q
+  have hnb : 65 ≤ bits q := by
+    have : 2 ^ 64 < 2 ^ bits q := lt_of_le_of_lt (by rw [← B_eq_pow]; exact hB) hub
+    have := (Nat.pow_lt_pow_iff_right (by norm_num : 1 < 2)).mp this
+    omega
+  -- position of the leading bit
+  have hy0 : 0 ≤ x * (2 : ℚ) ^ (-exp) := by positivity
+  have f1 : (q : ℚ) ≤ x * (2 : ℚ) ^ (-exp) := by rw [hq]; exact Nat.floor_le hy0
+  have f2 : x * (2 : ℚ) ^ (-exp) < (q : ℚ) + 1 := by rw [hq]; exact Nat.lt_floor_add_one _
+  have g1 : (2 : ℚ) ^ (((bits q - 1 : ℕ) : ℤ)) ≤ (q : ℚ) := by rw [zpow_natCast]; exact_mod_cast hlb
+  have g2 : (q : ℚ) + 1 ≤ (2 : ℚ) ^ ((bits q : ℕ) : ℤ) := by rw [zpow_natCast]; exact_mod_cast hub
+  have hpos : (0 : ℚ) < (2 : ℚ) ^ exp := by positivity
+  have k1 : (2 : ℚ) ^ (((bits q - 1 : ℕ) : ℤ) + exp) ≤ x := by
+    rw [zpow_add₀ two_ne]
+    have := le_trans g1 f1
+    rw [zpow_neg] at this
+    calc (2 : ℚ) ^ ((bits q - 1 : ℕ) : ℤ) * 2 ^ exp ≤ x * ((2 : ℚ) ^ exp)⁻¹ * 2 ^ exp :=
+          mul_le_mul_of_nonneg_right this hpos.le
+      _ = x := by field_simp
+  have k2 : x < (2 : ℚ) ^ (((bits q : ℕ) : ℤ) + exp) := by
+    rw [zpow_add₀ two_ne]
+    have := lt_of_lt_of_le f2 g2
+    rw [zpow_neg] at this
+    calc x = x * ((2 : ℚ) ^ exp)⁻¹ * 2 ^ exp := by field_simp
+      _ < (2 : ℚ) ^ ((bits q : ℕ) : ℤ) * 2 ^ exp := mul_lt_mul_of_pos_right this hpos
+  have hEeq : E = exp + ((bits q : ℕ) : ℤ) - 1 := by
+    have a1 : E < ((bits q : ℕ) : ℤ) + exp :=
+      (zpow_lt_zpow_iff_right₀ one_lt_two_q).mp (lt_of_le_of_lt hE1 k2)
+    have a2 : ((bits q - 1 : ℕ) : ℤ) + exp < E + 1 :=
+      (zpow_lt_zpow_iff_right₀ one_lt_two_q).mp (lt_of_le_of_lt k1 hE2)
+    omega
+  -- the 53-bit mantissa
+  have hm0 : q * 2 ^ 53 / 2 ^ bits q = ⌊x * (2 : ℚ) ^ (52 - E)⌋₊ := by
+    have e1 : 2 ^ bits q = 2 ^ (bits q - 53) * 2 ^ 53 := by rw [← pow_add]; congr 1; omega
+    rw [e1, Nat.mul_div_mul_right _ _ (by positivity)]
+    have hfl : q / 2 ^ (bits q - 53) = ⌊x * (2 : ℚ) ^ (-exp) / ((2 ^ (bits q - 53) : ℕ) : ℚ)⌋₊ := by
+      rw [Nat.floor_div_natCast, ← hq]
+    rw [hfl]
+    congr 1
+    rw [Nat.cast_pow, Nat.cast_ofNat, div_eq_mul_inv, ← zpow_natCast, ← zpow_neg, mul_assoc, ← zpow_add₀ two_ne]
+    congr 2
+    have : ((bits q - 53 : ℕ) : ℤ) = (bits q : ℤ) - 53 := by omega
+    rw [this, hEeq]; ring
+  have hm_lo : 2 ^ 52 ≤ q * 2 ^ 53 / 2 ^ bits q := by
+    rw [Nat.le_div_iff_mul_le (by positivity)]
+    calc 2 ^ 52 * 2 ^ bits q = 2 ^ (bits q - 1) * 2 ^ 53 := by rw [← pow_add, ← pow_add]; congr 1; omega
+      _ ≤ q * 2 ^ 53 := Nat.mul_le_mul_right _ hlb
+  have hm_hi : q * 2 ^ 53 / 2 ^ bits q < 2 ^ 53 := by
+    rw [Nat.div_lt_iff_lt_mul (by positivity)]
+    calc q * 2 ^ 53 < 2 ^ bits q * 2 ^ 53 := Nat.mul_lt_mul_of_pos_right hub (by positivity)
+      _ = 2 ^ 53 * 2 ^ bits q := Nat.mul_comm _ _
+  unfold getDBits truncDbl
+  simp only []
+  rw [← hEeq]
+  by_cases c1 : E ≥ 1024
+  · rw [if_pos c1, if_pos c1]
+  rw [if_neg c1, if_neg c1]
+  by_cases c2 : E ≤ -1023
+  · rw [if_pos c2]
+    by_cases c3 : E ≤ -1075
+    · rw [if_pos c3, if_pos c3]
+    · rw [if_neg c3, if_neg c3, if_pos c2, hm0, ← Nat.floor_div_natCast]
+      congr 2
+      rw [Nat.cast_pow, Nat.cast_ofNat, div_eq_mul_inv, ← zpow_natCast, ← zpow_neg, mul_assoc, ← zpow_add₀ two_ne]
+      congr 2
+      have : (((-1022 - E).toNat : ℕ) : ℤ) = -1022 - E := by omega
+      rw [this]; ring
+  · have c3 : ¬ E ≤ -1075 := by omega
+    rw [if_neg c2, if_neg c3, if_neg c2]
+    rw [← hm0]
+    generalize q * 2 ^ 53 / 2 ^ bits q = m0 at *
+    omega
 
 end Mpir.Mpq
